@@ -7,7 +7,7 @@ use serde_json::json;
 pub fn run(ctx: &Ctx) -> Outcome {
     let sp = spaces::c01_space(ctx.tier, ctx.seed, false, 4, 5, 3, 3, 2_000, 30_000);
     let texts = spaces::texts_c01(3);
-    let cfg = DiffCfg { prop: "C02", compare: Compare::Groups, entry_points: false, ref_budget: crate::refm::BUDGET, step_cap: Some(2_000_000), exclude: &diff::default_exclude, static_known: &diff::no_static_known, style: None };
+    let cfg = DiffCfg { prop: "C02", compare: Compare::Groups, entry_points: false, ref_budget: crate::refm::BUDGET, step_cap: Some(2_000_000), exclude: &diff::default_exclude, static_known: &diff::no_static_known, style: None, f1_compat: false };
     let mut acc = diff::run(ctx, &cfg, &sp.patterns, &texts);
     let mut describe = sp.describe.clone();
     if ctx.tier == Tier::Thorough {
